@@ -460,18 +460,23 @@ class Move(Field):
             else:
                 raise Exception()
 
-            return offset + (
+            offset = offset + (
                 (move_value - ((offset - start) % move_value)) % move_value
             )
         else:
             if self.reference == 'begins':
-                return move_value
+                offset = move_value
             elif self.reference == 'current-offset':
-                return offset + move_value
+                offset = offset + move_value
             elif self.reference == 'innermost-pkt':
-                return k['innermost-pkt-pos'] + move_value
+                offset = k['innermost-pkt-pos'] + move_value
             else:
                 raise Exception()
+
+        if offset < 0:
+            raise Exception("Moved to the negative position %i" % offset)
+
+        return offset
 
     def init(self, packet, defaults):
         pass
@@ -517,6 +522,9 @@ class Move(Field):
                 offset = k['innermost-pkt-pos'] + move_value
             else:
                 raise Exception()
+
+        if offset < 0:
+            raise Exception("Moved to the negative position %i" % offset)
 
         fragments.current_offset = offset
         return fragments
